@@ -24,6 +24,19 @@ func (u *Unit) evalPure(st *State, fn *ssa.Function, args []Val, bind []Val) Val
 		u.limit("pure evaluation too deep at %s", FuncName(fn))
 		return u.havocResult(st, fn.Signature.Results(), "pure_deep")
 	}
+	// spec functions are functions of the deep value of their arguments: the
+	// same call yields the same value (and the same ghost arrays), so that
+	// facts stated through them connect syntactically
+	memoKey := ""
+	if fn.Parent() == nil && len(bind) == 0 && u.binder == 0 && u.isSpecFile(fn) && !strings.HasPrefix(fn.Name(), "gvcC_") && !strings.HasPrefix(fn.Name(), "gvcL_") {
+		memoKey = "spec:" + fn.String()
+		for _, a := range args {
+			memoKey += "|" + u.valKey(st, a, 0)
+		}
+		if v, ok := st.memo[memoKey]; ok {
+			return v
+		}
+	}
 	u.specMode++
 	u.pureDepth++
 	defer func() { u.specMode--; u.pureDepth-- }()
@@ -128,6 +141,9 @@ func (u *Unit) evalPure(st *State, fn *ssa.Function, args []Val, bind []Val) Val
 	v := rets[len(rets)-1].v
 	for i := len(rets) - 2; i >= 0; i-- {
 		v = u.mergeVal(rets[i].c, rets[i].v, v)
+	}
+	if memoKey != "" {
+		st.memo[memoKey] = v
 	}
 	return v
 }
@@ -362,6 +378,10 @@ func (u *Unit) intrinsic(st *State, fr *Frame, in *ssa.Call, fn *ssa.Function, a
 	case "seqeq":
 		a1, o1, l1 := u.seqOf(st, args[0])
 		a2, o2, l2 := u.seqOf(st, args[1])
+		if u.specMode == 0 && flowsOnlyToAssert(in, 0) {
+			u.goalMode++
+			defer func() { u.goalMode-- }()
+		}
 		return u.seqEqTerm(a1, o1, l1, a2, o2, l2), true
 	case "cat":
 		parts := u.varargs(st, args[0])
@@ -458,6 +478,20 @@ func (u *Unit) intrinsic(st *State, fr *Frame, in *ssa.Call, fn *ssa.Function, a
 			base = u.alloc0
 		}
 		return Or(Eq(s.Blk, IntLit(0)), Ge(s.Blk, base)), true
+	case "disjoint":
+		parts := u.varargs(st, args[0])
+		var cs []*Term
+		for i := 0; i < len(parts); i++ {
+			for j := i + 1; j < len(parts); j++ {
+				a, aok := parts[i].(SliceV)
+				b, bok := parts[j].(SliceV)
+				if !aok || !bok {
+					continue
+				}
+				cs = append(cs, Or(Eq(a.Blk, IntLit(0)), Eq(b.Blk, IntLit(0)), Neq(a.Blk, b.Blk)))
+			}
+		}
+		return And(cs...), true
 	case "same":
 		a, b := args[0].(SliceV), args[1].(SliceV)
 		return And(Eq(a.Blk, b.Blk), Eq(a.Off, b.Off), Eq(a.Len, b.Len), Eq(a.Cap, b.Cap)), true
@@ -479,4 +513,37 @@ func (u *Unit) specSrc(fn *ssa.Function, in *ssa.Call) string {
 		return trimSpaceStr(lines[p.Line-1])
 	}
 	return fmt.Sprintf("assert@%d", p.Line)
+}
+
+// flowsOnlyToAssert: every use of v is the argument of gvc_assert, possibly
+// through phis (the && of a lemma's assert argument).
+func flowsOnlyToAssert(v ssa.Value, depth int) bool {
+	if depth > 6 {
+		return false
+	}
+	refs := v.Referrers()
+	if refs == nil || len(*refs) == 0 {
+		return false
+	}
+	for _, r := range *refs {
+		switch x := r.(type) {
+		case *ssa.DebugRef:
+		case *ssa.Call:
+			f := x.Call.StaticCallee()
+			if f == nil || f.Name() != "gvc_assert" {
+				return false
+			}
+		case *ssa.Phi:
+			if !flowsOnlyToAssert(x, depth+1) {
+				return false
+			}
+		case *ssa.If:
+			// the condition of a short-circuit && / || that itself ends in assert:
+			// cannot tell the polarity here
+			return false
+		default:
+			return false
+		}
+	}
+	return true
 }
